@@ -64,6 +64,11 @@ def service_cases(tier, inst):
             yield {"streams": ms, "zones": ["A"] * len(ms), "uset": ui, "inst": list(inst)}
             if ui in (0, 3, 6):
                 yield {"streams": ms, "zones": [["A", "B"][i % 2] for i in range(len(ms))], "uset": ui, "inst": list(inst)}
+    # option values the library repairs (a phase-change glide of zero or below): the allocation must still close
+    for ms in P.stream_multisets(inst, 4, 2, cps=(1, 2), dts=(1,), iso=True, min_n=2):
+        for ui in (0, 1):
+            for dpc in (0.0, -1.0):
+                yield {"streams": ms, "zones": ["A", "A"], "uset": ui, "inst": list(inst), "options": {"DT_PHASE_CHANGE": dpc}}
     # unit-operation targeting on: every stream is its own operation zone
     for ms in P.stream_multisets(inst, 4, 2, cps=(1, 2), dts=(1,), iso=True, min_n=2):
         for ui in (0, 3, 5):
@@ -133,14 +138,14 @@ SUBCHECKS = {
              "outcomes = distinct duty vectors",
         cases=U.cases, run=table_run,
         requires=("OpenPinch.analysis.gcc_manipulation:get_additional_GCCs", "OpenPinch.analysis.utility_targeting:get_utility_targets"),
-        bound=lambda t: "{0..3}^n n<=5, ladders <=2 levels, isothermal / gliding / mixed" if t == "quick" else "{0..3}^n n<=6, ladders <=3 levels (<=4 levels for n<=4), isothermal / gliding / mixed, two contributions",
+        bound=lambda t: "{0..3}^n n<=5, ladders <=2 levels, isothermal / gliding / mixed" if t == "quick" else "{0..3}^n n<=6, ladders <=3 levels, isothermal / gliding / mixed, two contributions",
     ),
     "service": SubCheck(
         name="service",
         describe="pinch_analysis_service: utility duties on every Direct Integration and Total Process record",
         rule="case = stream multiset x zone labels x 7 utility sets; non-trivial = >=2 utilities on one side receive duty in some zone",
         cases=service_cases, run=service_run,
-        bound=lambda t: ("multisets <=2 (K=4, dt=d/2) x (one zone x 14 utility sets + two zones x 9 sets) + 7 problems of 10-40 streams x 14 sets" if t == "quick" else "multisets <=3 (K=4) x <=2 zones x 14 utility sets + 7 problems of 10-40 streams")
+        bound=lambda t: ("multisets <=2 (K=4, dt=d/2) x (one zone x 14 utility sets + two zones x 9 sets) + 7 problems of 10-40 streams x 14 sets + pairs x 2 sets x 2 repaired option values" if t == "quick" else "multisets <=3 (K=4) x <=2 zones x 14 utility sets + 7 problems of 10-40 streams")
         + " + pairs with unit-operation targeting on x 3 sets",
     ),
 }
